@@ -338,6 +338,63 @@ func Scopes(quick bool) []Scope {
 		return w
 	})
 
+	// S-complement: the source is governed on egress by two policies that only together list every port of every protocol
+	// (neither is complete); the destination's ingress policy is any port set of the alphabet
+	add("S-complement", fw.Full, func(c *fw.Ctx) *wm.World {
+		split := fw.Pick(c, []int{100, 1, 65534}, "split point of the SCTP range")
+		third := fw.Pick(c, []string{"SCTP", "TCP", "UDP"}, "protocol that is split over the two policies")
+		pi := c.Choose(len(portSets), "ingress ports of the destination")
+		order := c.Choose(2, "policy names: complete-part first | rest first")
+		w := &wm.World{
+			NSs: []wm.NS{{Name: "ns1", Labels: map[string]string{"team": "a"}, HasObj: true}},
+			WLs: []wm.Workload{
+				{Kind: "Deployment", NS: "ns1", Name: "w1", Labels: map[string]string{"app": "a"}, Replicas: 1},
+				{Kind: "Deployment", NS: "ns1", Name: "w2", Labels: map[string]string{"app": "b"}, Ports: CPortAlpha[1], Replicas: 1},
+			}}
+		var most []wm.NPPort
+		for _, p := range []string{"TCP", "UDP", "SCTP"} {
+			if p == third {
+				most = append(most, wm.NPPort{HasPort: true, Num: 1, End: split, Proto: p})
+			} else {
+				most = append(most, wm.NPPort{Proto: p})
+			}
+		}
+		rest := []wm.NPPort{{HasPort: true, Num: split + 1, End: 65535, Proto: third}}
+		na, nb := "a-most", "b-rest"
+		if order == 1 {
+			na, nb = "z-most", "b-rest"
+		}
+		w.NPs = []wm.NP{
+			{NS: "ns1", Name: na, PodSel: *ml("app", "a"), Types: []string{"Egress"}, Egress: []wm.NPRule{{Peers: []wm.NPPeer{{Pod: &wm.Sel{}}}, Ports: most}}},
+			{NS: "ns1", Name: nb, PodSel: *ml("app", "a"), Types: []string{"Egress"}, Egress: []wm.NPRule{{Peers: []wm.NPPeer{{Pod: &wm.Sel{}}}, Ports: rest}}},
+			{NS: "ns1", Name: "dst", PodSel: *ml("app", "b"), Types: []string{"Ingress"}, Ingress: []wm.NPRule{{Ports: portSets[pi]}}},
+		}
+		return w
+	})
+
+	// S-same-cidr: one policy that uses the same cidr twice with different except lists (two rules of a direction, or the two directions)
+	add("S-same-cidr", fw.Full, func(c *fw.Ctx) *wm.World {
+		e1 := fw.Pick(c, [][]string{nil, {"10.1.0.0/16"}, {"10.0.0.0/9"}}, "except of the first use")
+		e2 := fw.Pick(c, [][]string{{"10.2.0.0/16"}, {"10.1.0.0/16", "10.200.0.0/16"}, nil}, "except of the second use")
+		where := c.Choose(3, "second use: second ingress rule | egress rule | second peer of the same rule")
+		pt := fw.Pick(c, [][]wm.NPPort{nil, {{HasPort: true, Num: 80}}}, "ports of the second use")
+		w := &wm.World{NSs: NsConfigs[1], WLs: ThreeWL(nil, nil, nil)[:2]}
+		a := wm.NPPeer{CIDR: "10.0.0.0/8", Except: e1}
+		b := wm.NPPeer{CIDR: "10.0.0.0/8", Except: e2}
+		np := wm.NP{NS: "ns1", Name: "p", PodSel: *ml("app", "a"), Types: []string{"Ingress", "Egress"}}
+		switch where {
+		case 0:
+			np.Ingress = []wm.NPRule{{Peers: []wm.NPPeer{a}, Ports: []wm.NPPort{{HasPort: true, Num: 8443}}}, {Peers: []wm.NPPeer{b}, Ports: pt}}
+		case 1:
+			np.Ingress = []wm.NPRule{{Peers: []wm.NPPeer{a}, Ports: []wm.NPPort{{HasPort: true, Num: 8443}}}}
+			np.Egress = []wm.NPRule{{Peers: []wm.NPPeer{b}, Ports: pt}}
+		default:
+			np.Ingress = []wm.NPRule{{Peers: []wm.NPPeer{a, b}, Ports: pt}}
+		}
+		w.NPs = []wm.NP{np}
+		return w
+	})
+
 	// S-multi: two policies from a reduced policy alphabet (union semantics, namespace by omission)
 	pols := multiPolicyAlphabet()
 	stride := 1
